@@ -159,6 +159,22 @@ def run(project, chk):
     chk.check(hex_digits_validated(hret), "V1", hfi.short, "hex digit validation", project.loc(hfi.module, hfi.node), "hex_to_rgb rejects anything but hex digits before int(.., 16), so a valid hex colour has components in 0..255",
               how="a failed all(c in <hex alphabet> ...) / regex full match raises before the conversion",
               message="hex digits are not validated before int(pair, 16): Color('#-f0000') becomes a *valid* colour with a negative component, and make_readable then raises instead of returning (None, False)")
+    # hsl()/hsla(): S, L (and alpha) are range-checked before the conversion (otherwise channels leave 0..255)
+    from sa.formula import compare, Policy, transform, reference
+    from checks.C07 import raise_guards
+    GUARD_REF = "def g2(s, l):\n    return not (0 <= s <= 1 and 0 <= l <= 1)\n\ndef g3(s, l, a):\n    return not (0 <= s <= 1 and 0 <= l <= 1 and 0 <= a <= 1)\n"
+    for q, names, entry in (("cm_colors.core.conversions.hsl_to_rgb", ("s", "l"), "g2"), ("cm_colors.core.conversions.hsla_to_rgb", ("s", "l", "a"), "g3")):
+        gfi = project.func(q)
+        try:
+            gex, genv, gret = extract_function(project, gfi)
+            memo = {id(genv[v]): (genv[v], ("var", v)) for v in names}
+            gabs = transform(gret, lambda n: n, memo)
+        except (Unsupported, KeyError) as e:
+            raise AnalysisError(f"ANALYSIS-INCONCLUSIVE {gfi.short}: {e}")
+        ref = reference(GUARD_REF, entry)
+        found = any(not compare(g, ref, Policy()) for g in raise_guards(gabs))
+        chk.check(found, "V1", gfi.short, f"range check of {', '.join(names)}", project.loc(gfi.module, gfi.node), f"{gfi.name} raises unless {' and '.join('0 <= ' + v + ' <= 1' for v in names)}",
+                  how="one of the raise guards preceding the conversion is exactly that range test", message=f"{gfi.name} does not reject {'/'.join(names)} outside [0, 1] before converting: out-of-range input yields a 'valid' colour with components outside 0..255")
     pfi = project.func("cm_colors.core.color_parser.parse_color_to_rgb")
     pcfg = build_cfg(pfi.node)
     pG = guard_states(pcfg)
